@@ -57,11 +57,42 @@ where
     let eps_t = T::from(eps).unwrap();
     let eps_used = num_traits::ToPrimitive::to_f64(&eps_t).unwrap();
     let mut h = HMC::<T, B, GTarget>::new(target.clone(), init.clone(), eps_t, l).set_seed(pu(params, "hseed"));
+    let (l0, eps_t0) = (l, eps_t);
+    let (mut l, mut eps_t, mut eps_used) = (l, eps_t, eps_used);
+    let retune = params.get("retune").and_then(|v| v.as_bool()).unwrap_or(false);
     let site = format!("HMC::step[{name}]");
     let mut hash = 0u64;
     let mut samples = vec![];
     let mut prev_rejected = vec![false; nc];
     for step in 0..steps {
+        // histories: between two steps the caller re-tunes the sampler through its public fields
+        // (the only way to change the step size / trajectory length / to restart a row)
+        if retune && step > 0 {
+            match g.range(0, 3) {
+                0 => {
+                    eps_t = eps_t * T::from(*g.pick(&[0.25, 0.5, 2.0, 1.5])).unwrap();
+                    eps_used = num_traits::ToPrimitive::to_f64(&eps_t).unwrap();
+                    h.step_size = eps_t;
+                    o.count("probe_step_size_reassigned", 1);
+                }
+                1 => {
+                    l = g.usize(0, 12);
+                    h.n_leapfrog = l;
+                    o.count("probe_n_leapfrog_reassigned", 1);
+                }
+                2 => {
+                    let mut cur = tvals(&h.positions);
+                    let c = g.usize(0, nc - 1);
+                    for j in 0..d {
+                        cur[c * d + j] = ((g.normal() * scale0) as f32) as f64;
+                    }
+                    h.positions = Tensor::<B, 2>::from_data(TensorData::new(cur, [nc, d]), &h.positions.device());
+                    prev_rejected[c] = false;
+                    o.count("probe_positions_reassigned", 1);
+                }
+                _ => {}
+            }
+        }
         let before = tvals(&h.positions);
         let e0 = target.evals.load(Ordering::Relaxed);
         mcmc_sim::trace::start();
@@ -255,7 +286,7 @@ where
             *v = *v + T::from(0.37).unwrap();
         }
         let run1 = |init: Vec<Vec<T>>| -> Option<Vec<f64>> {
-            let mut hh = HMC::<T, B, GTarget>::new(target.clone(), init, eps_t, l).set_seed(pu(params, "hseed"));
+            let mut hh = HMC::<T, B, GTarget>::new(target.clone(), init, eps_t0, l0).set_seed(pu(params, "hseed"));
             let r = std::panic::catch_unwind(std::panic::AssertUnwindSafe(|| hh.step()));
             r.ok().map(|_| tvals(&hh.positions))
         };
@@ -272,7 +303,7 @@ where
                 // either both runs kept the start (bitwise) or both moved to (nearly) the same point
                 let kept = |r: &[f64]| r.iter().zip(start.iter()).all(|(x, y)| x.to_bits() == y.to_bits());
                 let sc = maxabs(ra).max(maxabs(&start)).max(1.0);
-                let close = maxdiff(ra, rb) <= 4096.0 * eps_b * sc * (l as f64 + 1.0);
+                let close = maxdiff(ra, rb) <= 4096.0 * eps_b * sc * (l0 as f64 + 1.0);
                 if kept(ra) != kept(rb) || !close {
                     // a decision that sits on the rounding edge may flip: only a macroscopic difference counts
                     if maxdiff(ra, rb) > 1e-2 * sc && kept(ra) == kept(rb) {
@@ -316,7 +347,7 @@ impl Scenario for HmcSteps {
             1 | 2 => g.log_uniform(1e-4, 1e-2),
             _ => g.log_uniform(1e-2, 0.5),
         };
-        json!({"float": *g.pick(&["f64", "f64", "f32"]), "gseed": g.u64(), "hseed": g.u64(), "n_chains": g.usize(1, 32).min(if l > 24 { 4 } else { 32 }), "L": l, "eps": fbits(eps), "steps": g.usize(1, 10), "start_scale": fbits(g.log_uniform(0.1, 3.0))})
+        json!({"float": *g.pick(&["f64", "f64", "f32"]), "gseed": g.u64(), "hseed": g.u64(), "n_chains": g.usize(1, 32).min(if l > 24 { 4 } else { 32 }), "L": l, "eps": fbits(eps), "steps": g.usize(1, 10), "start_scale": fbits(g.log_uniform(0.1, 3.0)), "retune": g.bool(1, 3)})
     }
     fn execute(&self, p: &Value, ws: bool) -> Outcome {
         if ps(p, "float") == "f32" {
